@@ -170,7 +170,72 @@ PROPS['C19'] = dict(
 )
 
 EXEC_FACTS = ['panics.engine.*', 'skeleton.engine.EvaluateSelect']
-PROPS['C05'] = dict(lean=['Mkdb.Props.C05'], facts=EXEC_FACTS, sig_filter=r'exec:(select:.*|header|panic|hang|no-output)', runs=[dict(cmd='exec', proto='exec', args=['select'])], claim='pending', note='pending', rule='')
-PROPS['C06'] = dict(lean=['Mkdb.Props.C06'], facts=EXEC_FACTS, sig_filter=r'exec:(join:.*|panic|hang|no-output)', runs=[dict(cmd='exec', proto='exec', args=['join'])], claim='pending', note='pending', rule='')
-PROPS['C07'] = dict(lean=['Mkdb.Props.C07'], facts=EXEC_FACTS, sig_filter=r'exec:(aggregate:.*|panic|hang|no-output)', runs=[dict(cmd='exec', proto='exec', args=['agg'])], claim='pending', note='pending', rule='')
-PROPS['C18'] = dict(lean=['Mkdb.Props.C18'], facts=EXEC_FACTS, sig_filter=r'exec:(panic|hang|no-output)', runs=[dict(cmd='exec', proto='exec', args=['confused'])], claim='pending', note='pending', rule='')
+EXEC_NOTE = ('Trusted: Lean kernel, hand-written executor model (Mkdb/Model/Exec.lean), the scanner/parser model the SQL text goes '
+             'through, sort.Slice (modelled as a stable insertion sort; comparisons with the implementation are insensitive to the '
+             'order of ties, and the comparator is proved a strict weak order on typed columns), Go map iteration inside aggregation '
+             '(not order relevant), storage below Fetch (C01).')
+EXEC_ASSUME = ['float division in math.Round is exact for |sum| < 2^53', 'tables are typed: a column holds values of one type or NULL (C08)']
+PROPS['C05'] = dict(
+    lean=['Mkdb.Props.C05'], facts=EXEC_FACTS, sig_filter=r'exec:(select:.*|header|panic|hang|no-output)',
+    runs=[dict(cmd='exec', proto='exec', args=['select'])],
+    claim='Proof: C05_select_correct (for every table and every single-table SELECT without aggregates the model of EvaluateSelect '
+          'returns exactly filter(WHERE) -> project(select list) -> sort(ORDER BY keys resolved against the output header) -> '
+          'drop OFFSET -> take LIMIT), C05_sort (sorted permutation), C05_no_order_by (insertion order), C05_cmp_strict_weak (the '
+          'multi-key ASC/DESC comparator is a strict weak order on typed columns incl. NULL and strings), C05_limit_offset, '
+          'C05_where, C05_or_of_and together with C10_cond_roundtrip (AND binds tighter than OR for every parenthesis-free '
+          'condition). Tie: SQL text goes through the real scanner, parser, storage and executor on random tables (0-40 rows, small '
+          'value domains for ties); rows and headers are compared with the model (tie-insensitively under ORDER BY) and the judge '
+          'evaluates the reference meaning (Mkdb/Spec/Query.lean) on the implementation\'s rows; exhaustive boolean shapes up to 4 '
+          'predicates.',
+    note=EXEC_NOTE, assumptions=EXEC_ASSUME,
+    rule='per database: SELECT *; all 15 AND/OR shapes of 1-4 well-typed predicates; 25 random queries (projection with repeats, '
+         'qualifiers, aliases, expressions; WHERE; multi-key ORDER BY ASC/DESC; LIMIT/OFFSET in both orders). Non-trivial: ok with '
+         '>= 1 row; distinct by SQL text.',
+    trusted_base=['models Mkdb/Model/Exec.lean, Mkdb/Spec/Query.lean'],
+)
+PROPS['C06'] = dict(
+    lean=['Mkdb.Props.C06'], facts=EXEC_FACTS, sig_filter=r'exec:(join:.*|panic|hang|no-output)',
+    runs=[dict(cmd='exec', proto='exec', args=['join'])],
+    claim='Proof: C06_join - for every left-deep chain of INNER/LEFT/RIGHT joins over any table contents, whenever the relational '
+          'definition (pairs satisfying ON, plus each unmatched left/right row once padded with NULLs) is defined, the nested-loop '
+          'join of the model returns the same header and a permutation of exactly those rows; C06_inner/left/right give the exact '
+          'equations in loop order; C06_ambiguous, C06_qualified, C06_alias cover column resolution (ambiguous unqualified names are '
+          'rejected; alias replaces the table name; self-join under two aliases). Tie: join queries as SQL text on real storage over '
+          'three tables with duplicate and missing keys, empty sides, self-joins, chains of two joins, AND/OR ON-conditions; exact row '
+          'order compared with the model, multiset compared with the relational definition by the judge.',
+    note=EXEC_NOTE, assumptions=EXEC_ASSUME,
+    rule='per database 14 random two-table joins (4 join spellings x 4 ON shapes), 5 fixed alias / ambiguity cases, 6 chains of two '
+         'joins. Non-trivial: ok with >= 1 row; distinct by SQL text.',
+    trusted_base=['models Mkdb/Model/Exec.lean, Mkdb/Spec/Query.lean'],
+)
+PROPS['C07'] = dict(
+    lean=['Mkdb.Props.C07'], facts=EXEC_FACTS, sig_filter=r'exec:(aggregate:.*|panic|hang|no-output)',
+    runs=[dict(cmd='exec', proto='exec', args=['agg'])],
+    claim='Proof: C07_one_group_per_key, C07_group_membership, C07_partition (exactly one group per distinct tuple of grouping values; '
+          'a group is exactly the rows with its key), C07_count_star, C07_count_col, C07_order_independent (groups and counts do not '
+          'depend on row order), C07_one_row_per_key (one result row per distinct tuple). AVG is a KNOWN FINDING: the code keeps a '
+          'cumulative average rounded after every row; the full statement "AVG = round(sum/count), order independent" is false of '
+          'code and model (C07_avg_counterexample, replayed on the implementation by corpus/C07/P9), C07_avg_partial is what holds; '
+          'the repair cannot pass the unedited test suite (see KNOWN_FINDINGS.txt). Tie: aggregate queries as SQL text on real '
+          'storage with colliding printed forms ((1,11)/(11,1)), GROUP BY by name / qualifier / alias with comma lists, COUNT over '
+          'NULL-bearing columns, on top of WHERE and JOIN; the judge recomputes groups, counts and exact averages from the source rows.',
+    note=EXEC_NOTE, assumptions=EXEC_ASSUME,
+    rule='per database 5 ungrouped aggregate queries, 27 GROUP BY queries (9 grouping column sets x 3 spellings), 2 grouped joins. '
+         'Non-trivial: ok with >= 1 row; distinct by SQL text.',
+    trusted_base=['models Mkdb/Model/Exec.lean, Mkdb/Spec/Query.lean'],
+)
+PROPS['C18'] = dict(
+    lean=['Mkdb.Props.C18', 'Mkdb.Props.C09'], facts=EXEC_FACTS + ['skeleton.engine.Session.ExecQuery'], sig_filter=r'exec:(panic|hang|no-output)',
+    runs=[dict(cmd='exec', proto='exec', args=['confused'])],
+    claim='Proof (partial): C18_no_panic_partial - for every database whose rows have one value per column (NULLs, any types) and '
+          'every SELECT of a shape the parser produces, the model of EvaluateSelect returns rows or an error value; the only panic '
+          'left is the ORDER BY comparator meeting two non-NULL values of different types in one column, excluded on typed columns by '
+          'C18_sort_safe; C09_total covers the front end. Not yet covered by a theorem: INSERT/UPDATE/DELETE/CREATE statements and the '
+          'session states (no USE / failed USE), which are correspondence-only (C01/C14/C17 runs). Tie: panic-site inventory of '
+          'engine/*.go re-extracted every run; type-confused, NULL-bearing and ill-formed queries run under recover() and a watchdog.',
+    note=EXEC_NOTE, assumptions=EXEC_ASSUME,
+    rule='per database 46 fixed ill-typed / ill-formed queries (AVG over varchar/bool/NULL, ORDER BY over NULLs, unknown / ambiguous / '
+         'duplicated columns, bare operands, non-boolean ON) and 30 random type-confused predicates / sorts, on tables with and '
+         'without NULLs and empty tables. Non-trivial: ok with >= 1 row; distinct by SQL text.',
+    trusted_base=['models Mkdb/Model/Exec.lean'],
+)
